@@ -16,8 +16,12 @@ EXPLANATION = (
     "half (from Bucket.split, which redistributes through owns), deletes the parent afterwards on every path and then "
     "retries; Trie.__delitem__ never returns without having cleared the value; owns is a prefix test on the 160-bit "
     "binary id; closest_nodes walks the subtrees from the longest prefix outwards, leaves the walk only after a complete "
-    "level and once it holds at least max_nodes live nodes, admits no BAD node, sorts by XOR distance to the target and "
-    "truncates; the refresh id is the bucket's prefix followed by 160-len(prefix) random bits (taint: the prefix "
+    "level and once it holds at least max_nodes live nodes, admits no BAD node, never compares a table entry with the excluded node as objects (Peer "
+    "equality is by public key and would drop every entry of that key; the node to leave out is told apart by its id), "
+    "sorts by XOR distance to the target and truncates; early-bound callables (`f = X.m`, also unpacked from a tuple) are "
+    "respelled as the chain they stand for when the root is bound once before and no attribute of the chain is ever "
+    "assigned outside constructors, and X.__getitem__/__setitem__/__delitem__/__contains__ calls as the subscript / "
+    "assignment / del / `in` they perform; the refresh id is the bucket's prefix followed by 160-len(prefix) random bits (taint: the prefix "
     "characters, not just its length, flow into the result). Constructs are recognised by what they compute: guards are "
     "dominating CFG conditions closed under flag / decision locals (all assignments, checked against intervening "
     "mutations), predicate helpers, closures, lambdas, generators and filters; stores, calls and exits are followed "
@@ -4066,6 +4070,39 @@ def rule_closest(ctx: Ctx) -> None:
         _verdict(ctx, istate, "closest", ifr.fi if ifr is not None else fi, enclosing_stmt(ist) if ist is not None else fi.node,
                  "candidates are identified by Node.id (dict keyed by node.id / set of ids)", why, unknown=why)
 
+    # the one node a caller may leave out is told apart by its id as well: `<node> != exclude_node` (or `in` / `not in` a
+    # literal holding it) is Peer equality - by public key - and drops every table entry of that key, whatever its node id
+    excl = fi.params()[3] if len(fi.params()) > 3 else None
+    if excl is not None:
+        by_key = _node_equality_by_key(ctx)
+        offending: list[tuple[_Frame, ast.AST]] = []
+        for fr in cl.frames:
+            for n in ast.walk(fr.fi.node):
+                if not isinstance(n, ast.Compare):
+                    continue
+                sides = [n.left, *n.comparators]
+                for op, l, r in zip(n.ops, sides, sides[1:]):
+                    if not isinstance(op, (ast.Eq, ast.NotEq, ast.In, ast.NotIn)):
+                        continue
+                    lt, rt = strip_cast(fr.tr(l)), strip_cast(fr.tr(r))
+                    if isinstance(op, (ast.In, ast.NotIn)):
+                        if not isinstance(rt, (ast.Tuple, ast.List, ast.Set)):
+                            continue
+                        pairs = [(lt, strip_cast(x)) for x in rt.elts]
+                    else:
+                        pairs = [(lt, rt)]
+                    for x, y in pairs:
+                        for me_, other in ((x, y), (y, x)):
+                            if isinstance(me_, ast.Name) and me_.id == excl and not (isinstance(other, ast.Constant) and other.value is None) \
+                                    and not (isinstance(other, ast.Name) and other.id == excl):
+                                offending.append((fr, n))
+        state = True if not offending or by_key is False else (None if by_key is None else False)
+        _verdict(ctx, state, "closest", offending[0][0].fi if offending else fi, enclosing_stmt(offending[0][1]) if offending else fi.node,
+                 "the excluded node is told apart by its id (node.id != exclude_node.id), never by Peer equality",
+                 f"closest_nodes compares a table entry with `{excl}` as Node objects: Peer equality is by public key, so every entry of the excluded node's key "
+                 "(same key seen from another network: another node id, possibly another bucket) is left out too - the result is no longer the k closest live nodes",
+                 unknown=f"a table entry is compared with `{excl}` as an object and how Node objects compare (__eq__) is not recognised")
+
     # the walk: i from len(prefix) down to 0, all suffixes of prefix[:i]; break only with >= max_nodes collected
     walks = []
     all_loops = []
@@ -6258,7 +6295,202 @@ def _undecorated_source(repo, m) -> str | None:
     return src + "\n"
 
 
+# ---------------------------------------------------------------------- early-bound callables, dunder calls
+_DUNDER_SYNTAX = {"__getitem__", "__setitem__", "__delitem__", "__contains__"}
+
+
+def _attr_path(e: ast.AST):
+    """(root name, [attr, ...]) of a Name-rooted attribute chain with at least one attribute, None otherwise"""
+    attrs = []
+    while isinstance(e, ast.Attribute):
+        attrs.append(e.attr)
+        e = e.value
+    return (e.id, attrs[::-1]) if isinstance(e, ast.Name) and attrs else None
+
+
+def _stmt_slot(st: ast.AST):
+    p = parent(st)
+    for f in ("body", "orelse", "finalbody"):
+        b = getattr(p, f, None)
+        if isinstance(b, list):
+            for i, x in enumerate(b):
+                if x is st:
+                    return p, f, b, i
+    return None
+
+
+def _runs_before(store_stmt: ast.AST, s: ast.AST, fn: ast.AST) -> bool:
+    """whenever statement s runs, store_stmt has completed its binding since the last time s's block was entered: an earlier
+    statement of s's block or of an enclosing block, or the for / with statement whose body contains s"""
+    cur = s
+    while cur is not None and cur is not fn:
+        slot = _stmt_slot(cur) if isinstance(cur, ast.stmt) else None
+        if slot is not None:
+            p, f, b, i = slot
+            if isinstance(store_stmt, (ast.Assign, ast.AnnAssign)) and any(x is store_stmt for x in b[:i]):
+                return True
+            if p is store_stmt and isinstance(p, (ast.For, ast.AsyncFor, ast.With, ast.AsyncWith)) and f == "body":
+                return True
+        cur = parent(cur)
+    return False
+
+
+def _early_bound_pairs(s: ast.AST) -> list[tuple[str, ast.AST]]:
+    """(local, attribute chain) pairs of `f = X.m` / `f, g = X.m, Y.n` (a parallel assignment of the same length)"""
+    if not (isinstance(s, ast.Assign) and len(s.targets) == 1):
+        return []
+    t, v = s.targets[0], s.value
+    if isinstance(t, ast.Name):
+        return [(t.id, v)] if _attr_path(v) is not None else []
+    if isinstance(t, (ast.Tuple, ast.List)) and isinstance(v, (ast.Tuple, ast.List)) and len(t.elts) == len(v.elts) \
+            and all(isinstance(x, ast.Name) for x in t.elts) and not any(isinstance(x, ast.Starred) for x in v.elts) \
+            and all(_simple_read(x) for x in v.elts):
+        return [(x.id, y) for x, y in zip(t.elts, v.elts) if _attr_path(y) is not None]
+    return []
+
+
+def _unbind_one(fn, stored) -> bool:
+    """One local of fn that only ever stands for a bound method / attribute chain taken early (`send = self.endpoint.send`,
+    `get, put = d.__getitem__, d.__setitem__`) and is only CALLED: its calls are respelled as calls of the chain and the
+    binding is dropped.  Same behaviour when the chain evaluates to the same callable at the call as at the binding:
+    the root name is bound once, before the binding (a parameter never rebound / one local assignment, loop or with target that
+    runs before it), and no attribute of the chain is ever assigned outside constructors anywhere in the code base."""
+    params = {x.arg for x in fn.args.posonlyargs + fn.args.args + fn.args.kwonlyargs} | {x.arg for x in (fn.args.vararg, fn.args.kwarg) if x is not None}
+    own_stores: dict[str, list] = {}
+    for n in walk_no_nested(fn):
+        if isinstance(n, ast.Name) and isinstance(n.ctx, (ast.Store, ast.Del)):
+            own_stores.setdefault(n.id, []).append(n)
+        elif isinstance(n, ast.ExceptHandler) and n.name:
+            own_stores.setdefault(n.name, []).append(n)
+    own_ids = {id(x) for xs in own_stores.values() for x in xs}
+    foreign: set[str] = set()                                             # rebound in a nested scope / declared global or nonlocal
+    for n in ast.walk(fn):
+        if isinstance(n, (ast.Global, ast.Nonlocal)):
+            foreign |= set(n.names)
+        elif isinstance(n, ast.Name) and isinstance(n.ctx, (ast.Store, ast.Del)) and id(n) not in own_ids:
+            foreign.add(n.id)
+        elif isinstance(n, ast.arg) and n.arg not in params:
+            foreign.add(n.arg)
+        elif isinstance(n, ast.ExceptHandler) and n.name and id(n) not in own_ids:
+            foreign.add(n.name)
+    for s in walk_no_nested(fn):
+        for name, value in _early_bound_pairs(s):
+            if name in params or name in foreign or len(own_stores.get(name, [])) != 1:
+                continue
+            root, attrs = _attr_path(value)
+            if root in foreign or root == name or any(stored(a) for a in attrs):
+                continue
+            rs = own_stores.get(root, [])
+            if root in params:
+                if rs:
+                    continue
+            elif len(rs) != 1 or isinstance(rs[0], ast.ExceptHandler) or not _runs_before(enclosing_stmt(rs[0]), s, fn):
+                continue
+            slot = _stmt_slot(s)
+            if slot is None:
+                continue
+            _p, _f, block, idx = slot
+            region = {id(y) for later in block[idx + 1:] for y in ast.walk(later)}
+            uses = [x for x in ast.walk(fn) if isinstance(x, ast.Name) and x.id == name and isinstance(x.ctx, ast.Load)]
+            if not uses or not all(id(u) in region and isinstance(parent(u), ast.Call) and parent(u).func is u for u in uses):
+                continue
+            for u in uses:
+                parent(u).func = ast.copy_location(_copy(value), u)
+            t = s.targets[0]
+            def drop() -> None:
+                if len(block) > 1:
+                    del block[idx]
+                else:
+                    block[idx] = ast.copy_location(ast.Pass(), s)
+            if isinstance(t, ast.Name):
+                drop()
+            else:
+                k = next(i for i, x in enumerate(t.elts) if x.id == name)
+                del t.elts[k]
+                del s.value.elts[k]
+                if not t.elts:
+                    drop()
+                elif len(t.elts) == 1:
+                    s.targets[0], s.value = t.elts[0], s.value.elts[0]
+            return True
+    return False
+
+
+def _prep_bound(m, stored) -> int:
+    """early-bound callables -> the chain they stand for; X.__getitem__(k) / X.__setitem__(k, v) / X.__delitem__(k) /
+    X.__contains__(k) -> X[k] / X[k] = v / del X[k] / k in X (the statement and the method call run the same type slot;
+    not for super() receivers); returns the number of rewrites"""
+    count = 0
+    for fn in [n for n in ast.walk(m.tree) if isinstance(n, _FUNCS)]:
+        for _round in range(12):
+            set_parents(m.tree)
+            if not _unbind_one(fn, stored):
+                break
+            count += 1
+    module_bound = {n.id for n in ast.walk(m.tree) if isinstance(n, ast.Name) and isinstance(n.ctx, ast.Store)} | set(m.imports)
+
+    def receiver(c: ast.Call, nargs: int):
+        """(receiver, arguments) of a dunder call with nargs arguments: X.__d__(args) or dict.__d__(X, args)"""
+        if c.keywords or any(isinstance(x, ast.Starred) for x in c.args) or not isinstance(c.func, ast.Attribute):
+            return None
+        r = c.func.value
+        if isinstance(r, ast.Name) and r.id in ("dict", "list") and r.id not in module_bound and len(c.args) == nargs + 1 and _simple_read(c.args[0]):
+            return c.args[0], c.args[1:]
+        if len(c.args) != nargs or not _simple_read(r) or (isinstance(r, ast.Name) and r.id in ("super", "dict", "list", "set", "object")):
+            return None
+        return r, c.args
+
+    class D(ast.NodeTransformer):
+        n = 0
+
+        def visit_Expr(self, n):
+            self.generic_visit(n)
+            c = n.value
+            if isinstance(c, ast.Call) and isinstance(c.func, ast.Attribute):
+                if c.func.attr == "__setitem__":
+                    rv = receiver(c, 2)
+                    if rv is not None:
+                        D.n += 1
+                        return ast.copy_location(ast.Assign(targets=[ast.copy_location(ast.Subscript(value=rv[0], slice=rv[1][0], ctx=ast.Store()), c)], value=rv[1][1]), n)
+                if c.func.attr == "__delitem__":
+                    rv = receiver(c, 1)
+                    if rv is not None:
+                        D.n += 1
+                        return ast.copy_location(ast.Delete(targets=[ast.copy_location(ast.Subscript(value=rv[0], slice=rv[1][0], ctx=ast.Del()), c)]), n)
+            return n
+
+        def visit_Call(self, n):
+            self.generic_visit(n)
+            if isinstance(n.func, ast.Attribute) and n.func.attr in ("__getitem__", "__contains__"):
+                rv = receiver(n, 1)
+                if rv is not None:
+                    D.n += 1
+                    if n.func.attr == "__getitem__":
+                        return ast.copy_location(ast.Subscript(value=rv[0], slice=rv[1][0], ctx=ast.Load()), n)
+                    if not _simple_read(rv[1][0]):
+                        D.n -= 1
+                        return n                                          # (`k in X` evaluates k first: only when both merely read)
+                    return ast.copy_location(ast.Compare(left=rv[1][0], ops=[ast.In()], comparators=[rv[0]]), n)
+            return n
+    D().visit(m.tree)
+    return count + D.n
+
+
+def _bound_trigger(m) -> bool:
+    for n in ast.walk(m.tree):
+        if isinstance(n, ast.Call) and isinstance(n.func, ast.Attribute) and n.func.attr in _DUNDER_SYNTAX:
+            return True
+    for fn in ast.walk(m.tree):
+        if isinstance(fn, _FUNCS):
+            called = {c.func.id for c in ast.walk(fn) if isinstance(c, ast.Call) and isinstance(c.func, ast.Name)}
+            if called and any(name in called for s in walk_no_nested(fn) for name, _v in _early_bound_pairs(s)):
+                return True
+    return False
+
+
 def _prep_triggers(m) -> bool:
+    if _bound_trigger(m):
+        return True
     if any(_anyall_operands(m, c) is not None for c in ast.walk(m.tree) if isinstance(c, ast.Call)):
         return True
     mods = {mod.split(".")[0] for mod, _a in m.imports.values()}
@@ -6296,12 +6528,37 @@ def _private_view(ctx: Ctx) -> None:
     ov = dict(repo.overrides)
     for r in rels:
         ov[r] = undecorated.get(r, repo.by_relpath[r].src) + _PRIVATE_MARK
+    stored_cache: dict[str, bool] = {}
+
+    def stored(attr: str) -> bool:
+        """some code outside a constructor assigns / deletes an attribute of this name (anywhere in the code base)"""
+        if attr not in stored_cache:
+            hit = False
+            for rel, mod in repo.by_relpath.items():
+                if "/test/" in rel or attr not in mod.src:
+                    continue                                              # (test fixtures are not part of the running library)
+                for fn in ast.walk(mod.tree):
+                    if isinstance(fn, (*_FUNCS, ast.Module, ast.ClassDef)) and not (isinstance(fn, _FUNCS) and fn.name in ("__init__", "__new__", "__post_init__")):
+                        for x in walk_no_nested(fn):
+                            if isinstance(x, ast.Attribute) and x.attr == attr and isinstance(x.ctx, (ast.Store, ast.Del)):
+                                hit = True
+                            elif isinstance(x, ast.Call) and isinstance(x.func, ast.Name) and x.func.id in ("setattr", "delattr") and len(x.args) >= 2 \
+                                    and const_value(x.args[1]) == attr:
+                                hit = True
+                    if hit:
+                        break
+                if hit:
+                    break
+            stored_cache[attr] = hit
+        return stored_cache[attr]
     try:
         priv = Repo(repo.root, overrides=ov, include_tests=any(r.startswith("ipv8/test/") for r in repo.by_relpath), extra_dirs=repo.extra_dirs)
         for r in rels:
             m = priv.by_relpath[r]
             for _round in range(3):
                 n = _prep_operator(m) + _prep_enums(m) + _prep_match(m) + _prep_records(m) + _prep_anyall(m)
+                set_parents(m.tree)
+                n += _prep_bound(m, stored)
                 set_parents(m.tree)
                 n += _prep_booltests(m)
                 ast.fix_missing_locations(m.tree)
@@ -6439,4 +6696,11 @@ WITNESSES = [
      "old": "nodes.update({node.id: node for node in list(bucket.nodes.values())", "new": "nodes.update({node.mid: node for node in list(bucket.nodes.values())"},
     {"name": "closest candidates pass through an intermediate set of Node objects", "file": RT, "rule": "closest",
      "old": "nodes.update({node.id: node for node in list(bucket.nodes.values())", "new": "nodes.update({node.id: node for node in set(bucket.nodes.values())"},
+    {"name": "closest leaves the excluded node out by Peer equality (public key) instead of by node id", "file": RT, "rule": "closest",
+     "old": "if node.status != NODE_STATUS_BAD and (exclude_node is None\n                                                                         or node.id != exclude_node.id)})",
+     "new": "if node.status != NODE_STATUS_BAD and node != exclude_node})"},
+    {"name": "closest skips entries equal to the excluded node through a local alias (`skip = exclude_node`; `node == skip`)", "rule": "closest", "edits": [
+        {"file": RT, "old": "            nodes: dict[bytes, Node] = {}\n", "new": "            nodes: dict[bytes, Node] = {}\n            skip = exclude_node\n"},
+        {"file": RT, "old": "if node.status != NODE_STATUS_BAD and (exclude_node is None\n                                                                         or node.id != exclude_node.id)})",
+         "new": "if node.status != NODE_STATUS_BAD and not (node == skip)})"}]},
 ]
